@@ -2,14 +2,14 @@ CONSTANTS
  Members = {"m1","m2"}
  Topics = {"t1","t2"}
  NParts <- NP21
- SubsChoices = {{"t1"},{"t1","t2"}}
+ SubsChoices = {{"t2"},{"t1","t2"}}
  CommitTP <- CTP
- SessChoices = {2}
+ SessChoices = {1,3}
  RebT = 2
  DefT = 30
  KeepT = {TRUE}
- MaxClock = 4
- MaxGen = 4
+ MaxClock = 3
+ MaxGen = 2
  FixSubChange = TRUE
  FixHbRefresh = TRUE
  DevHbNoGen = FALSE
@@ -18,7 +18,7 @@ CONSTANTS
  DevJoinOkEarly = FALSE
  DevAssignAllMembers = FALSE
  DevRestoreDropsAsg = FALSE
- DevRestoreGenZero = TRUE
+ DevRestoreGenZero = FALSE
  DevExpireIgnoresHb = FALSE
  DevNoLaggerDrop = FALSE
  DevNoExpire = FALSE
@@ -29,7 +29,8 @@ CONSTANTS
  DevSyncLookupUnlocked = FALSE
 INIT Init
 NEXT Next
-PROPERTIES C15_RestoreEqual C15_NotFenced C15_KeepWorking
+PROPERTIES AllC
+INVARIANTS StoreInSync LeaderIsMember AsgOnlyStable HbIsAlive
 CONSTRAINT GenBound
 VIEW View
 CHECK_DEADLOCK FALSE
